@@ -15,7 +15,7 @@ import (
 
 func init() {
 	register(&Def{ID: "C04", Engine: "E2+E1", Run: runC04,
-		Rule: "writes: element type x shape x view state (atlas layouts and view-graph states to depth 2) x whole-tensor write operation, on an identity-coded root; the whole root is diffed against (model values inside the view's image, untouched outside). " +
+		Rule: "writes: element type x shape x view state (atlas layouts, view-graph states to depth 2, one-element views with a wide storage window) x whole-tensor write operation, on an identity-coded root; the whole root is diffed against (model values inside the view's image, untouched outside). " +
 			"copies: element type x shape x source layout x copy operation, and - from NON-INITIAL states - every slice/transpose view state of the view graph (depth 2) x {Clone, Materialize, SafeT, Copy, CopyTo}; logical equality by At sweep, storage disjointness by write probes in both directions. one case = (dtype, shape, state, operation); non-trivial = the view's image is a proper subset of the root (writes) / the source has >1 element (copies)",
 		Assume: []string{"view states and their cell maps are those of the C02/C03 model; states whose access pattern differs from the model (C02/C03 findings) are skipped and counted",
 			"a refused write is accepted when nothing outside the view changed (whether the operation must succeed is C06/C07's question)"}})
@@ -296,6 +296,30 @@ func runC04(r *core.Run) {
 						b, _ := atlas.Replay(d, shape, false, path)
 						return b
 					}})
+				}
+			}
+			if vgDT[d.Name] && n <= 27 {
+				// ONE-element views with a wide storage window: a stepped range that selects a single element of an axis
+				// (step = axis length) while every other axis is picked by an index - scalar-shaped, but not a plain scalar
+				for k := range shape {
+					if shape[k] < 2 {
+						continue
+					}
+					for _, at := range []int{0, 1} {
+						sl := make([]ref.Sl, len(shape))
+						for i := range shape {
+							sl[i] = ref.Sl{Single: true, Start: shape[i] - 1}
+						}
+						sl[k] = ref.Sl{Start: at, End: shape[k], Step: shape[k]}
+						if at == 1 && shape[k] < 3 {
+							continue
+						}
+						path := []atlas.Step{{Op: "S", Sl: sl}}
+						states = append(states, stt{"vg1:" + atlas.PathString(path), func() *atlas.Built {
+							b, _ := atlas.Replay(d, shape, false, path)
+							return b
+						}})
+					}
 				}
 			}
 			for _, st := range states {
